@@ -123,7 +123,7 @@ def hash_sweep(prop, seed, tier, ops, kinds=("HASHHF", "HASHRPF", "HASHUFFDAC", 
                     out.append(Case(kind, (0,), "full%d.%d" % (n, v), S2, states[(n + v) % len(states)], 1, ops, big=False, seed=gen.splitmix(seed, n, 4), extra=("--qbs", "4")))
     return out
 
-def basic_cases(prop, seed, tier, ops, kinds=KINDS, states=("fresh", "own", "gen", "resaved", "survivor", "cold"), per_input_states=3, filt=None, n_random=None, families=None, pv=1, big=None, kind_params=None, max_n=None, extra_inputs=(), corner=True):
+def basic_cases(prop, seed, tier, ops, kinds=KINDS, states=("fresh", "own", "gen", "resaved", "survivor", "heir", "cold"), per_input_states=4, filt=None, n_random=None, families=None, pv=1, big=None, kind_params=None, max_n=None, extra_inputs=(), corner=True):
     cases = []
     sets = list(extra_inputs) + input_sets(prop, seed, tier, n_random=n_random, families=families, max_n=max_n, corner=corner)
     for ii, (iname, S) in enumerate(sets):
